@@ -557,6 +557,14 @@ def _families(ctx: Ctx) -> List[Tuple[str, dict]]:
     for stem in (shipped if ctx.thorough else shipped[:3] + rng.shuffle(shipped[3:])[:4]):
         for mode in (("asis", "dyadic") if ctx.thorough or stem == "uc7_config" else (rng.choice(["asis", "dyadic"]),)):
             cases.append(("env-shipped", rig.gen_env_case(rng, ctx.scale(24, 96), "shipped:" + stem, mode)))
+    # the multi-agent environment (PrimaiteRayMARLEnv has its own step pipeline and returns a dictionary of rewards): the two shipped
+    # two-defender scenarios, with resets
+    for stem in ("data_manipulation_marl", "multi_agent_session"):
+        if stem in rig.ENV_SHIPPED or ctx.thorough or True:
+            c = rig.gen_env_case(rng, ctx.scale(16, 64), "shipped:" + stem, rng.choice(["asis", "dyadic"]))
+            c["marl"] = True
+            c["reset_at"] = sorted({5, ctx.scale(11, 40)})
+            cases.append(("env-marl", c))
     # shipped episode SCHEDULES: every reset builds the next episode from another configuration (real EpisodeListScheduler)
     for sd in (rig.ENV_SCHEDULES if ctx.thorough else rig.ENV_SCHEDULES[:2]):
         c = rig.gen_env_case(rng, ctx.scale(12, 40), "sched:" + sd, "asis")
@@ -636,6 +644,9 @@ def run(ctx: Ctx):
             case = dict(case, **capture["observed"])  # what the real run produced: agents, per-step states and items
             ctx.count("env-source:" + case.get("source", "uc2").split(":")[0] + ":" + case.get("weights", "dyadic"))
             ctx.count("env:resets", sum(1 for stp in case["steps"] if stp.get("reset_after")))
+            if capture.get("marl"):
+                ctx.count("env:runs through PrimaiteRayMARLEnv (rewards dictionary of every step compared)")
+                ctx.count("env:PrimaiteRayMARLEnv steps", len(case["steps"]))
             for stp in case["steps"]:  # what the real describe_state() showed the components (read off the projected dictionary)
                 for nname, nd in (stp["dict"].get("network", {}).get("nodes", {}) or {}).items():
                     if not isinstance(nd, dict):
